@@ -23,13 +23,18 @@ var (
 // This function allocates regions starting at the end of the kernel address
 // space. It should only be used during the early stages of kernel initialization.
 func EarlyReserveRegion(size uintptr) (uintptr, *kernel.Error) {
-	size = (size + (mm.PageSize - 1)) & ^(mm.PageSize - 1)
+	roundedSize := (size + (mm.PageSize - 1)) & ^(mm.PageSize - 1)
 
-	// reserving a region of the requested size will cause an underflow
-	if size > earlyReserveLastUsed {
+	// rounding up wrapped around; the request can never be satisfied
+	if roundedSize < size {
 		return 0, errEarlyReserveNoSpace
 	}
 
-	earlyReserveLastUsed -= size
+	// reserving a region of the requested size will cause an underflow
+	if roundedSize > earlyReserveLastUsed {
+		return 0, errEarlyReserveNoSpace
+	}
+
+	earlyReserveLastUsed -= roundedSize
 	return earlyReserveLastUsed, nil
 }
